@@ -1058,7 +1058,16 @@ def _nodelist_to_slot_render_func(
         # HOWEVER, the layer with `_COMPONENT_CONTEXT_KEY` also contains user-defined data from `get_context_data()`.
         # Data from `get_context_data()` should take precedence over `extra_context`. So we have to insert
         # the forloop variables BEFORE that.
-        index_of_last_component_layer = get_last_index(ctx.dicts, lambda d: _COMPONENT_CONTEXT_KEY in d)
+        # NOTE: In the "django" context behavior the layer that `SlotNode.render()` pushed on top may point
+        # to the PARENT component, so we first look for the layer of the component the slot belongs to.
+        slot_component_id = getattr(slot_ref, "_component_vars", {}).get(_COMPONENT_CONTEXT_KEY)
+        index_of_last_component_layer = None
+        if slot_component_id is not None:
+            index_of_last_component_layer = get_index(
+                ctx.dicts, lambda d: d.get(_COMPONENT_CONTEXT_KEY) == slot_component_id
+            )
+        if index_of_last_component_layer is None:
+            index_of_last_component_layer = get_last_index(ctx.dicts, lambda d: _COMPONENT_CONTEXT_KEY in d)
         if index_of_last_component_layer is None:
             index_of_last_component_layer = 0
 
